@@ -38,7 +38,11 @@ class MachineryError(Exception):
 
 
 class Boom(Exception):
-    """An 'arbitrary exception' injected by the fault script (not a socket.error)."""
+    """An 'arbitrary exception' injected by the fault script (not a socket.error).  Like every simulated error text it carries
+    characters that mean something to str.format and to %-formatting: an error message is data, never a template."""
+
+    def __init__(self, where):
+        Exception.__init__(self, '%s failed {0} {} {where} %%s %%d' % where)
 
 
 _mods = {}
@@ -120,7 +124,7 @@ class SimSocket(object):
         w.rec({"k": "sock", "op": "connect", "sock": self.st.id, "res": r, "host": str(sa[0]), "port": int(sa[1])})
         w.during('connect')
         if r == 'refused':
-            raise OSError(111, 'Connection refused (sim)')
+            raise OSError(111, 'Connection refused (sim {0} {} {errno} %s)')
         if r == 'boom':
             raise Boom('connect')
         self.st.connected = True
@@ -129,7 +133,7 @@ class SimSocket(object):
         w = self.w
         data = bytes(data)
         if self.st.closed:
-            raise OSError(9, 'Bad file descriptor (sim)')
+            raise OSError(9, 'Bad file descriptor (sim {0} {} {errno} %s)')
         idx = w.nwrites
         w.nwrites += 1
         if data[:4] == b'GET ':
@@ -138,7 +142,7 @@ class SimSocket(object):
         if r != 'ok':
             fr, rest = codec.decode_client_frames(data)
             w.rec({"k": "wrf", "sock": self.st.id, "exc": r, "op": fr[0]['op'] if len(fr) == 1 and not rest else -1})
-            raise (OSError(32, 'Broken pipe (sim)') if r == 'error' else Boom('sendall'))
+            raise (OSError(32, 'Broken pipe (sim {0} {} {errno} %s)') if r == 'error' else Boom('sendall'))
         w.on_write(self, data)
 
     def _k_recv(self, buf, n, tls):
@@ -194,7 +198,7 @@ class SimSocket(object):
                 return 0
             if cur['kind'] == 'error':
                 w.rec({"k": "rd", "sock": st.id, "what": "error", "n": 0})
-                raise OSError(104, 'Connection reset by peer (sim)')
+                raise OSError(104, 'Connection reset by peer (sim {0} {} {errno} %s)')
             if cur['kind'] == 'boom':
                 w.rec({"k": "rd", "sock": st.id, "what": "boom", "n": 0})
                 raise Boom('recv')
@@ -225,7 +229,7 @@ class SimSocket(object):
             return b''
         if r == 'error':
             w.rec({"k": "rd", "sock": self.st.id, "what": "error", "n": 0})
-            raise OSError(104, 'reset (sim)')
+            raise OSError(104, 'reset (sim {0} {} {errno} %s)')
         if r == 'boom':
             w.rec({"k": "rd", "sock": self.st.id, "what": "boom", "n": 0})
             raise Boom('recv')
@@ -242,7 +246,7 @@ class SimSocket(object):
         if r == 'boom':
             raise Boom('shutdown')
         if r:
-            raise OSError(107, 'not connected (sim)')
+            raise OSError(107, 'not connected (sim {0} {} {errno} %s)')
 
     def close(self):
         self.st.closed = True
@@ -295,7 +299,7 @@ def _shim_socket():
         w.begin_connect_phase(host, port)
         if w.conn.get('dns', 'ok') == 'fail':
             w.rec({"k": "sock", "op": "dns", "sock": -1, "res": "fail", "host": str(host), "port": int(port)})
-            raise OSError(-2, 'Name or service not known (sim)')
+            raise OSError(-2, 'Name or service not known (sim {0} {} {errno} %s)')
         if w.conn.get('dns', 'ok') == 'boom':
             raise Boom('getaddrinfo')
         w.rec({"k": "sock", "op": "dns", "sock": -1, "res": "ok", "host": str(host), "port": int(port)})
@@ -306,7 +310,7 @@ def _shim_socket():
         r = W.conn_take('sockcreate', 'ok')
         if r != 'ok':
             W.rec({"k": "sock", "op": "create_fail", "sock": -1})
-            raise OSError(24, 'Too many open files (sim)')
+            raise OSError(24, 'Too many open files (sim {0} {} {errno} %s)')
         return SimSocket(W)
     ns.getaddrinfo = getaddrinfo
     ns.socket = socket
@@ -721,7 +725,7 @@ class World(object):
             self.watch_steps += 1
             # a selector that failed keeps failing (EBADF / ECONNRESET do not heal)
             self.rec({"k": "wait", "dt": 0, "ready": False, "want": want, "why": "raise"})
-            raise (OSError(9, 'Bad file descriptor (sim)') if self.cur['wait_broken'] == 'error' else Boom('wait'))
+            raise (OSError(9, 'Bad file descriptor (sim {0} {} {errno} %s)') if self.cur['wait_broken'] == 'error' else Boom('wait'))
         s = self.next_step()
         if s['kind'] == 'outlived':
             # the script ends here: a client that is still waiting has outlived every time-out it was configured with
@@ -732,7 +736,7 @@ class World(object):
         if s['kind'] == 'wait_raise':
             self.cur['wait_broken'] = s.get('exc', 'error')
             self.rec({"k": "wait", "dt": 0, "ready": False, "want": want, "why": "raise"})
-            raise (OSError(4, 'Interrupted (sim)') if s.get('exc', 'error') == 'error' else Boom('wait'))
+            raise (OSError(4, 'Interrupted (sim {0} {} {errno} %s)') if s.get('exc', 'error') == 'error' else Boom('wait'))
         dt = s.get('dt', 0)
         if s['kind'] != 'data':
             self.watch_steps += 1
